@@ -48,12 +48,17 @@ def features(deck):
 
 def run(chk, decks, clauses, seed, optsets, npts=110, decorate=None, lo=-11, hi=11, moved_every=0):
     """Each deck is converted under every option set of optsets(deck, rng)."""
+    from .. import numberings
     rng = random.Random(seed)
     jobs, nd, meta = [], {}, {}
     tid = 0
+    decks = [adeck.normalise(d) for d in decks]
+    renumbered = [i for i, d in enumerate(decks) if i % 3 == 1 and not any(c.get('like') for c in d['cells'])]
+    family = numberings.choose(chk, decks, [i for i in renumbered if (i // 3) % 2 == 1], random.Random(seed + 1))
     for i, d in enumerate(decks):
-        d = adeck.normalise(d)
-        if i % 3 == 1 and not any(c.get('like') for c in d['cells']):
+        if i in family:
+            d = numberings.apply(d, family[i])          # a member of the family of Numberings.tla admissible for the deck
+        elif i in set(renumbered):
             d = adeck.renumber(d, *adeck.RENUMBERINGS[1 + (i // 3) % 3])
         if i % 4 == 2:
             d['plusspell'] = True        # '+3' is a valid MCNP number
